@@ -45,6 +45,30 @@ def resolve_all(p: Program, expr: ast.AST, inst, _depth: int = 0) -> List[Tuple[
     return [(e, i)]
 
 
+def follow_values(p: Program, expr: ast.AST, inst, depth: int = 0, awaited: bool = True) -> List[Tuple[ast.AST, object]]:
+    """Values an expression may hold: through locals (every definition, accumulate loops normalised) and through
+    the return statements of in-repo helpers (synchronous, or coroutine functions awaited in place)."""
+    from .cfg import Builder, Inst
+    out = []
+    for e, i in resolve_all(p, expr, inst):
+        followed = False
+        call = e.value if isinstance(e, ast.Await) else e
+        if isinstance(call, ast.Call) and depth < 4:
+            for t in FuncEnv.of(p, i.unit).resolve_call(call):
+                if t[0] != 'func' or t[1] in i.stack():
+                    continue
+                if t[1].is_async != isinstance(e, ast.Await) or (t[1].is_async and not awaited):
+                    continue
+                callee = Inst(t[1], i, call, Builder.bind(None, call, t[1], i, t[2], None, None))
+                for n in FuncEnv.of(p, t[1]).own_nodes():
+                    if isinstance(n, ast.Return) and n.value is not None:
+                        out.extend(follow_values(p, n.value, callee, depth + 1, awaited))
+                        followed = True
+        if not followed:
+            out.append((e, i))
+    return out
+
+
 class Ctx:
     def __init__(self, root: str, depth: int = 8) -> None:
         self.root = root
